@@ -176,9 +176,13 @@ def cases(tier):
     nmax = 2 if tier == "quick" else 3
     for n in range(1, nmax + 1):
         for f in forests(n):
-            perms = [MACROS[:n]]
+            perms = [tuple(MACROS[:n])]
             if tier == "thorough" and n <= 3 or n <= 2:
-                perms = ["".join(p) for p in itertools.permutations(MACROS[:n])]
+                perms = list(itertools.permutations(MACROS[:n]))
+            # macro names in a prefix relation (NET / NET_TLS / NET_TLS2): name handling must compare whole names
+            pref = ("NET", "NET_TLS", "NET_TLS2")[:n]
+            if n >= 2:
+                perms += list(itertools.permutations(pref)) if (tier == "thorough" or n == 2) else [pref]
             for names in perms:
                 src, regions, k = render(f, names)
                 ms = sorted(names[:k])
@@ -193,9 +197,11 @@ def cases(tier):
         for f in forests(3):
             if any(k in repr(f) for k in ("ifdefined", "ifnotdefined")):
                 continue
-            src, regions, k = render(f, "ABC")
+            src, regions, k = render(f, ("A", "B", "C"))
             for o in ([], ["-DB"], ["-UB"], ["-DA", "-UC"]):
-                yield (src, regions, k, "ABC", o)
+                yield (src, regions, k, ("A", "B", "C"), o)
+            src, regions, k = render(f, ("NET", "NET_TLS", "NET_TLS2"))
+            yield (src, regions, k, ("NET", "NET_TLS", "NET_TLS2"), [])
 
 
 def main(tier, replay=None):
